@@ -19,6 +19,38 @@ INT = re.compile(r"^-?\d+$")
 FLT = re.compile(r"^-?\d+\.\d+$|^-?\d+(\.\d+)?e-?\d+$")
 
 
+DECIMAL = re.compile(r"^[+-]?(\d+\.?\d*|\.\d+)([eE][+-]?\d+)?$")
+
+
+def strconv_float(body):
+    """the float64 the interpreter's strconv route (ParseInt with base 0, then ParseFloat) makes of the text; None: an error"""
+    if body != body.strip() or body == "":
+        return None
+    t = body.replace("_", "") if re.match(r"^[+-]?(0[xXbBoO])?[0-9a-fA-F]+(_[0-9a-fA-F]+)*$", body) else body
+    try:
+        if re.match(r"^[+-]?0[xX]", t) and "p" in t.lower():
+            return float.fromhex(t)
+        if re.match(r"^[+-]?(0[xXbBoO])?[0-9a-fA-F]+$", t) and not re.match(r"^[+-]?\d+[eE]", t):
+            try:
+                return float(int(t, 0)) if re.match(r"^[+-]?0[xXbBoO]", t) else float(int(t, 10))
+            except ValueError:
+                pass
+        return float(t)
+    except (ValueError, OverflowError):
+        return None
+
+
+def lit_float(lit):
+    if lit == "(1.0/0.0)":
+        return float("inf")
+    if lit == "(0.0/0.0)":
+        return float("nan")
+    try:
+        return float(lit)
+    except (ValueError, OverflowError):
+        return None
+
+
 def num_of(lit):
     """exact value of a numeric source literal, with its kind"""
     if INT.match(lit):
@@ -70,23 +102,23 @@ def impl_oracle(c):
     # nil equals only nil
     if (va == "nil") != (vb == "nil") and eq_ab:
         out.append("nil equals a non-nil value: %s == %s" % (va, vb))
-    # a string and a number: equal exactly when the string is a decimal numeral denoting that number
-    for s_, n_ in ((va, nb), (vb, na)):
-        if s_.startswith('"') and n_ and abs(n_[1]) <= 2 ** 53:
-            body = s_[1:-1]
-            den = None
-            if INT.match(body) or re.match(r"^\+\d+$", body):
-                den = Fraction(int(body))
-            elif FLT.match(body) or re.match(r"^-?\d+\.\d+$", body):
-                try:
-                    den = Fraction(float(body))
-                except (ValueError, OverflowError):
-                    den = None
-            if den is not None and abs(den) <= 2 ** 53:
-                if eq_ab != (den == n_[1]):
-                    out.append("string %s and number %s: == is %s" % (s_, vb if n_ is nb else va, eq_ab))
-            elif den is None and re.match(r'^[a-z ]*$', body) and eq_ab:
-                out.append("non-numeric string %s equals a number" % s_)
+    # a string and a number: equal exactly when the string is a decimal numeral denoting that number - judged exactly, with
+    # rational arithmetic: no rounding through float64 and no other spelling than a decimal numeral
+    for s_, n_, nlit in ((va, nb, vb), (vb, na, va)):
+        if not (s_.startswith('"') and s_.endswith('"')) or not (n_ or nlit in ("(1.0/0.0)", "(0.0/0.0)")):
+            continue
+        body = s_[1:-1]
+        den = Fraction(body) if DECIMAL.match(body) else None
+        want = den is not None and n_ is not None and den == n_[1]
+        if eq_ab == want:
+            continue
+        msg = "string %s and number %s: == is %s, but %s" % (s_, nlit, eq_ab, ("the string denotes exactly that number" if want else
+              ("the string denotes another number" if den is not None else "the string is not a decimal numeral")))
+        if eq_ab and not want and strconv_float(body) is not None and strconv_float(body) == lit_float(nlit):
+            # the recorded finding: the comparison goes through strconv.ParseFloat and float64
+            out.append((msg, "string-number-through-strconv"))
+        else:
+            out.append(msg)
     return out
 
 
